@@ -1180,8 +1180,18 @@ static void gen_expr(Node *node) {
     error_tok(node->tok, "invalid expression");
   }
   case TY_LDOUBLE: {
+    // The x87 registers are not preserved across calls, and there are
+    // only eight of them: keep the left operand on the machine stack
+    // while the right one is evaluated.
     gen_expr(node->lhs);
+    println("  sub $16, %%rsp");
+    println("  fstpt (%%rsp)");
+    depth += 2;
     gen_expr(node->rhs);
+    println("  fldt (%%rsp)");
+    println("  add $16, %%rsp");
+    depth -= 2;
+    println("  fxch %%st(1)");
 
     switch (node->kind) {
     case ND_ADD:
